@@ -65,6 +65,7 @@ func (x *Exec) assumeClause(st *State, env *Env, cl *Clause, bind func(string, V
 			fail("exists and forall cannot be mixed in one clause: %s", cl.text)
 		}
 		w := freshVar("wit$"+v.name, SInt)
+		x.witnessVars = append(x.witnessVars, w)
 		e2.vars[v.name] = w
 		if bind != nil {
 			bind(v.name, w)
@@ -488,6 +489,34 @@ func (x *Exec) candidates(st *State, apps []appRec, t types.Type) []Value {
 		return out
 	}
 	if vs, ok := sortOf(t); ok {
+		// the arbitrary values of the goal being proved (its skolems) are where hypotheses over
+		// the same sort are needed first
+		{
+			var names []string
+			for n := range x.curSkolems {
+				names = append(names, n)
+			}
+			sort.Strings(names)
+			for _, n := range names {
+				if tv, ok := x.curSkolems[n].(*Term); ok && tv.sort == vs {
+					k := fmt.Sprintf("%d", tv.id)
+					if !seen[k] {
+						seen[k] = true
+						out = append(out, tv)
+					}
+				}
+			}
+		}
+		// witnesses of assumed existential clauses: universally quantified hypotheses are needed at them
+		if vs == SInt {
+			for _, w := range x.witnessVars {
+				k := fmt.Sprintf("%d", w.id)
+				if !seen[k] {
+					seen[k] = true
+					out = append(out, w)
+				}
+			}
+		}
 		// arguments of applications of abstract function values (a blend function held in a field):
 		// facts quantified over their arguments are instantiated where they are applied
 		for _, a := range apps {
@@ -1073,6 +1102,7 @@ func (x *Exec) verifyContract(ct *Contract) (err error) {
 		ufMemo[k] = t
 	}
 	x.schemas = nil
+	x.witnessVars = nil
 	x.paths = 0
 	x.unrolled = 0
 	x.instKeys = nil
